@@ -85,6 +85,7 @@ func VerifC09_AnnotationSites() {
 		CrossNamespaceSecretCA:          nd.Bool("allow.ca"),
 		CrossNamespaceSecretCertificate: nd.Bool("allow.crt"),
 		CrossNamespaceSecretPasswd:      nd.Bool("allow.passwd"),
+		CrossNamespaceServices:          nd.Bool("allow.services"),
 	}
 	cache := &zzSiteCache{dyn: dyn}
 	hc := haproxy.CreateInstance(logger, haproxy.InstanceOptions{}).Config()
@@ -92,7 +93,7 @@ func VerifC09_AnnotationSites() {
 	src := &Source{Namespace: "a", Name: "ing1", Type: convtypes.ResourceIngress}
 	link := hatypes.CreateHostPathLink("d.local", "/", hatypes.MatchBegin)
 	ref := zzSiteRefs[nd.Choice("ref", len(zzSiteRefs))]
-	site := nd.Choice("site", 4)
+	site := nd.Choice("site", 5)
 
 	// somebody in namespace b legitimately uses b/x as a password file already
 	preExisting := nd.Bool("userlist.exists")
@@ -101,7 +102,13 @@ func VerifC09_AnnotationSites() {
 		hc.Userlists().Replace("ab_x", []hatypes.User{{Name: "bob", Passwd: "secret"}})
 	}
 
-	mapper := NewMapBuilder(logger, map[string]string{}).NewMapper()
+	mapper := NewMapBuilder(logger, map[string]string{
+		ingtypes.BackAuthExternalPlacement: "backend",
+		ingtypes.BackAuthMethod:            "GET",
+		ingtypes.BackAuthHeadersRequest:    "*",
+		ingtypes.BackAuthHeadersSucceed:    "*",
+		ingtypes.BackAuthHeadersFail:       "*",
+	}).NewMapper()
 	backend := hc.Backends().AcquireBackend("a", "app", "8080")
 	backend.AddBackendPath(link)
 	host := hc.Hosts().AcquireHost("d.local")
@@ -123,6 +130,16 @@ func VerifC09_AnnotationSites() {
 		own = dyn.CrossNamespaceSecretCA
 		mapper.AddAnnotations(src, link, map[string]string{ingtypes.HostAuthTLSSecret: ref})
 		c.buildHostAuthTLS(&hostData{host: host, mapper: mapper})
+	case 4:
+		// auth-url svc://[ns/]x:80 - the services of namespaces a, b and ab are all legitimately
+		// exposed by ingresses of their own namespaces already (their backends exist)
+		own = dyn.CrossNamespaceServices
+		for _, ns := range []string{"a", "b", "ab"} {
+			hc.Backends().AcquireBackend(ns, "x", "80").AcquireEndpoint("10.0.0.1", 8080, "")
+		}
+		hc.Frontend().AuthProxy.Name, hc.Frontend().AuthProxy.RangeStart, hc.Frontend().AuthProxy.RangeEnd = "_front__auth", 14415, 14420
+		mapper.AddAnnotations(src, link, map[string]string{ingtypes.BackAuthURL: "svc://" + ref + ":80"})
+		c.buildBackendAuthExternal(&backData{backend: backend, mapper: mapper})
 	}
 	for _, call := range cache.calls {
 		nd.Record("getter " + call.getter + " asked as reader=" + call.reader + " name=" + call.name)
@@ -146,6 +163,10 @@ func VerifC09_AnnotationSites() {
 		nd.Assert(backend.Server.CrtFilename == "" && backend.Server.CAFilename == "" && host.TLS.CAFilename == "", "foreign-secret-not-configured")
 		for _, p := range backend.Paths {
 			nd.Assert(p.AuthHTTP.UserlistName == "", "foreign-password-file-not-used")
+			nd.Assert(p.AuthExternal.AuthBackendName == "", "foreign-service-not-used")
+			if site == 4 {
+				nd.Assert(p.AuthExternal.AlwaysDeny, "refused-auth-service-fails-closed")
+			}
 		}
 		nd.Reach("denied")
 	}
